@@ -32,6 +32,33 @@ type pcInfo struct {
 	in      map[*ssa.BasicBlock][]pcAlt
 	flip    map[int]bool
 	isFlag  map[int]bool // condition of a flag block (decided by the incoming edge)
+	via     map[*ssa.BasicBlock]map[int]int // block -> predecessor index -> pseudo condition "entered through that edge"
+	viaOf   map[int][2]int                  // pseudo condition -> (block index, predecessor index)
+	brOf    map[*ssa.BasicBlock]pcBr
+}
+
+// boolPhiBranch: b ends in `if v` / `if !v` with v a boolean phi of b itself.
+func boolPhiBranch(b *ssa.BasicBlock) (*ssa.Phi, bool) {
+	if b == nil || len(b.Instrs) == 0 || len(b.Succs) != 2 {
+		return nil, false
+	}
+	iff, ok := b.Instrs[len(b.Instrs)-1].(*ssa.If)
+	if !ok {
+		return nil, false
+	}
+	v := iff.Cond
+	for {
+		if u, ok := v.(*ssa.UnOp); ok && u.Op == token.NOT {
+			v = u.X
+			continue
+		}
+		break
+	}
+	phi, ok := v.(*ssa.Phi)
+	if !ok || phi.Block() != b {
+		return nil, false
+	}
+	return phi, true
 }
 
 const pcMaxAlts = 24
@@ -250,33 +277,144 @@ func pcEqual(a, b []pcAlt) bool {
 	return true
 }
 
+type pcBr struct {
+	key  int
+	flip bool
+}
+
+// alongEdge: alternative a of block p carried over the edge p→b (the edge's literal added; a flag whose value on a's
+// incoming edge was v restated as an outcome of v); ok=false when the edge is infeasible for a.
+func (pi *pcInfo) alongEdge(brOf map[*ssa.BasicBlock]pcBr, p, b *ssa.BasicBlock, a pcAlt) (pcAlt, bool) {
+	na := a
+	pb, hasBr := brOf[p]
+	if !hasBr {
+		return na, true
+	}
+	side := -1
+	if p.Succs[0] == b {
+		side = 0
+	} else if p.Succs[1] == b {
+		side = 1
+	}
+	if side < 0 {
+		return na, true
+	}
+	outcome := side == 0
+	if pb.flip {
+		outcome = !outcome
+	}
+	l := pcLit(pb.key << 1)
+	if outcome {
+		l |= 1
+	}
+	if pcHas(a, l^1) {
+		return nil, false // contradicts what is already known on this alternative
+	}
+	na = pcAdd(a, l)
+	if vm := pi.via[p]; vm != nil {
+		if phi, ok := boolPhiBranch(p); ok {
+			for ek, vid := range vm {
+				if !pcHas(a, pcLit(vid<<1|1)) {
+					continue
+				}
+				// `outcome` is stated for the condition with `!` stripped, i.e. for the phi itself
+				k2, f2 := pi.condKey(phi.Edges[ek])
+				o2 := outcome
+				if f2 {
+					o2 = !o2
+				}
+				l2 := pcLit(k2 << 1)
+				if o2 {
+					l2 |= 1
+				}
+				if pcHas(na, l2^1) {
+					return nil, false
+				}
+				na = pcAdd(pcWithout(na, vid), l2)
+			}
+		}
+	}
+	return na, true
+}
+
+// enter: what changes on entering b through its predecessor number pk.
+func (pi *pcInfo) enter(brOf map[*ssa.BasicBlock]pcBr, b *ssa.BasicBlock, pk int, oc []int, isFlag bool, na pcAlt) pcAlt {
+	for _, k := range pi.killAt[b] {
+		na = pcWithout(na, k)
+	}
+	if isFlag && pk < len(oc) && oc[pk] >= 0 {
+		if bb, ok := brOf[b]; ok {
+			outcome := oc[pk] == 1
+			if bb.flip {
+				outcome = !outcome
+			}
+			l := pcLit(bb.key << 1)
+			if outcome {
+				l |= 1
+			}
+			na = pcAdd(na, l)
+		}
+	}
+	if vm := pi.via[b]; vm != nil {
+		if vid, ok := vm[pk]; ok {
+			na = pcAdd(na, pcLit(vid<<1|1))
+		}
+	}
+	return na
+}
+
 func pathConds(fn *ssa.Function) *pcInfo {
 	if pi, ok := pcCache[fn]; ok {
 		return pi
 	}
-	pi := &pcInfo{keyOf: map[string]int{}, ptrKey: map[ssa.Value]int{}, killAt: map[*ssa.BasicBlock][]int{}, in: map[*ssa.BasicBlock][]pcAlt{}, flip: map[int]bool{}, isFlag: map[int]bool{}}
+	pi := &pcInfo{keyOf: map[string]int{}, ptrKey: map[ssa.Value]int{}, killAt: map[*ssa.BasicBlock][]int{}, in: map[*ssa.BasicBlock][]pcAlt{}, flip: map[int]bool{}, isFlag: map[int]bool{}, via: map[*ssa.BasicBlock]map[int]int{}, viaOf: map[int][2]int{}}
 	pcCache[fn] = pi
 	if len(fn.Blocks) == 0 {
 		return pi
 	}
 	// condition keys of all branches first (so that kill sets are complete before iterating)
-	type br struct {
-		key  int
-		flip bool
-	}
-	brOf := map[*ssa.BasicBlock]br{}
+	brOf := map[*ssa.BasicBlock]pcBr{}
 	for _, b := range fn.Blocks {
 		if len(b.Instrs) == 0 || len(b.Succs) != 2 || b.Succs[0] == b.Succs[1] {
 			continue
 		}
 		if iff, ok := b.Instrs[len(b.Instrs)-1].(*ssa.If); ok {
 			k, f := pi.condKey(iff.Cond)
-			brOf[b] = br{k, f}
+			brOf[b] = pcBr{k, f}
 			if _, isFlag := flagOutcomes(b); isFlag {
 				pi.isFlag[k] = true
 			}
 		}
 	}
+	// value-carrying flags: `ok := a && f(x); if ok {…}` — the phi takes a non-constant boolean on some edge; entering
+	// through that edge is remembered as a pseudo literal and turned into a literal on that value when the branch is taken
+	for _, b := range fn.Blocks {
+		phi, ok := boolPhiBranch(b)
+		if !ok {
+			continue
+		}
+		for k := range b.Preds {
+			if k >= len(phi.Edges) {
+				continue
+			}
+			if _, isC := phi.Edges[k].(*ssa.Const); isC {
+				continue
+			}
+			id := len(pi.conds)
+			pi.conds = append(pi.conds, nil)
+			pi.flip[id] = false
+			pi.isFlag[id] = true
+			if pi.via[b] == nil {
+				pi.via[b] = map[int]int{}
+			}
+			pi.via[b][k] = id
+			pi.viaOf[id] = [2]int{b.Index, k}
+			if bb, has := brOf[b]; has {
+				pi.isFlag[bb.key] = true
+			}
+		}
+	}
+	pi.brOf = brOf
 	pi.in[fn.Blocks[0]] = []pcAlt{{}}
 	// iterate in block order until stable
 	for iter := 0; iter < 60; iter++ {
@@ -292,51 +430,10 @@ func pathConds(fn *ssa.Function) *pcInfo {
 				if !ok {
 					continue
 				}
-				pb, hasBr := brOf[p]
 				for _, a := range pin {
-					na := a
-					if hasBr {
-						// which side of p's branch leads to b (a block can be both successors' target only when they are equal, excluded above)
-						side := -1
-						if p.Succs[0] == b {
-							side = 0
-						} else if p.Succs[1] == b {
-							side = 1
-						}
-						if side >= 0 {
-							outcome := side == 0
-							if pb.flip {
-								outcome = !outcome
-							}
-							l := pcLit(pb.key << 1)
-							if outcome {
-								l |= 1
-							}
-							if pcHas(a, l^1) {
-								continue // contradicts what is already known on this alternative
-							}
-							na = pcAdd(a, l)
-						}
+					if na, ok := pi.alongEdge(brOf, p, b, a); ok {
+						alts = append(alts, pi.enter(brOf, b, pk, oc, isFlag, na))
 					}
-					// entering b: forget conditions whose operands are (re)defined here
-					for _, k := range pi.killAt[b] {
-						na = pcWithout(na, k)
-					}
-					// a flag block knows its own branch outcome from the edge it is entered through
-					if isFlag && pk < len(oc) && oc[pk] >= 0 {
-						if bb, ok := brOf[b]; ok {
-							outcome := oc[pk] == 1
-							if bb.flip {
-								outcome = !outcome
-							}
-							l := pcLit(bb.key << 1)
-							if outcome {
-								l |= 1
-							}
-							na = pcAdd(na, l)
-						}
-					}
-					alts = append(alts, na)
 				}
 			}
 			if alts == nil {
@@ -433,6 +530,43 @@ func (c *Ctx) pathAlts(b *ssa.BasicBlock) [][]string {
 		}
 		sort.Strings(lits)
 		out = append(out, lits)
+	}
+	return out
+}
+
+// pathEdgeGuards: the literals that hold on every feasible path that takes the edge pred→succ.
+func (c *Ctx) pathEdgeGuards(pred, succ *ssa.BasicBlock) []string {
+	pi := pathConds(pred.Parent())
+	var alts []pcAlt
+	for _, a := range pi.in[pred] {
+		if na, ok := pi.alongEdge(pi.brOf, pred, succ, a); ok {
+			alts = append(alts, na)
+		}
+	}
+	if len(alts) == 0 {
+		return nil
+	}
+	cm := alts[0]
+	for _, a := range alts[1:] {
+		var x pcAlt
+		for _, l := range cm {
+			if pcHas(a, l) {
+				x = append(x, l)
+			}
+		}
+		cm = x
+	}
+	var out []string
+	for _, l := range cm {
+		k := int(l >> 1)
+		if pi.isFlag[k] || pi.conds[k] == nil {
+			continue
+		}
+		pol := l&1 == 1
+		if pi.flip[k] {
+			pol = !pol
+		}
+		out = append(out, canonGuard(pol, c.Expr(pi.conds[k])))
 	}
 	return out
 }
